@@ -62,10 +62,13 @@ NameF(t, nm) ==
         ELSE IF ent(n).k = "bitmap0" THEN <<>>          \* NXT: the library's bitmap format is C01's finding, kept out of here
         ELSE IF \E j \in 1..Len(es) : es[j].k = "gateway" /\ es[j].of = n THEN 3
         ELSE base[n]]
-\* variant 1: the RDATA names ARE the question name; 2: one more label in front
+\* variant 1: the RDATA names ARE the question name; 2: one more label in front;
+\* 3: as 1 under a question name with a long first label (the pointer replaces 25 octets at the very end of the message)
+LongL == [i \in 1..24 |-> 97 + (i % 26)]
 TypesMsg2(t, variant) ==
-  LET nm == IF variant = 1 THEN BAX ELSE << L(67) >> \o BAX IN
-  Msg(H0, << QOf(BAX, t) >>, << A4(BAX, 1), RR(Tail(BAX), t, 1, Ttl1h, NameF(t, nm)) >>, <<>>, <<>>)
+  LET qn == IF variant = 3 THEN << LongL >> \o Tail(BAX) ELSE BAX
+      nm == IF variant = 2 THEN << L(67) >> \o BAX ELSE qn IN
+  Msg(H0, << QOf(qn, t) >>, << A4(qn, 1), RR(Tail(qn), t, 1, Ttl1h, NameF(t, nm)) >>, <<>>, <<>>)
 
 \* TXT RDATA of exactly r octets (r >= 2)
 TxtOf(r) == LET q == r \div 256  m == r % 256 IN
@@ -90,7 +93,7 @@ CInit ==
           /\ cv = <<q, o1, t1, o2, t2, ty, nq, d>>
      \/ CMode = "multiq" /\ \E a \in 1..NFam, b \in 1..NFam, c \in 0..NFam, w \in 0..1, d \in 0..1 :
           /\ CInShard(a + 3 * b + 7 * c + w + d) /\ cv = <<a, b, c, w, d>>
-     \/ CMode = "types" /\ \E x \in 1..Len(NameTypes), variant \in 1..2 : cv = <<NameTypes[x], variant>>
+     \/ CMode = "types" /\ \E x \in 1..Len(NameTypes), variant \in 1..3 : cv = <<NameTypes[x], variant>>
      \/ CMode = "pad" /\ \E at \in (IF Tier = 0 THEN 16382..16385 ELSE 16370..16395) : cv = <<at>>
 CNext == UNCHANGED <<v, cv>>
 
